@@ -13,6 +13,7 @@ import (
 	"flag"
 	"fmt"
 	"net/url"
+	"reflect"
 	"strings"
 	"time"
 
@@ -31,10 +32,10 @@ type ceBoth struct {
 	id string
 }
 
-func (p *ceID) ID() string            { return p.id }
-func (p *ceData) Data() interface{}   { return p.d }
-func (p *ceBoth) ID() string          { return p.id }
-func (p *ceBoth) Data() interface{}   { return p.d }
+func (p *ceID) ID() string                      { return p.id }
+func (p *ceData) Data() interface{}             { return p.d }
+func (p *ceBoth) ID() string                    { return p.id }
+func (p *ceBoth) Data() interface{}             { return p.d }
 func (p *cePlain) MarshalJSON() ([]byte, error) { return json.Marshal(p.V) }
 func (p *ceID) MarshalJSON() ([]byte, error)    { return json.Marshal(p.V) }
 
@@ -274,6 +275,24 @@ func ceMain(args []string) {
 				}
 				if ct != wantCT {
 					oracle("C18 content type %q for format %s", ct, fmK)
+				}
+				// data: the payload, or what its Data() returns; nothing when that is nil
+				{
+					var wantData interface{} = payload
+					if d, ok := payload.(interface{ Data() interface{} }); ok {
+						wantData = d.Data()
+					}
+					rawData, hasData := doc["data"]
+					if wantData == nil {
+						if hasData {
+							oracle("C18 the payload offers no data (nil payload / Data() returned nil) but the document has data=%.60s", rawData)
+						}
+					} else if wb, merr := json.Marshal(wantData); merr == nil {
+						var a, b interface{}
+						if !hasData || json.Unmarshal(rawData, &a) != nil || json.Unmarshal(wb, &b) != nil || !reflect.DeepEqual(a, b) {
+							oracle("C18 the document's data is %.60s, want the payload (or its Data()) %.60s", rawData, wb)
+						}
+					}
 				}
 				if (sch != nil) != (doc["dataschema"] != nil) {
 					oracle("C18 dataschema presence wrong")
